@@ -23,13 +23,13 @@ type vTreeStream struct {
 	ctx context.Context
 }
 
-func (s *vTreeStream) Send(*pb.GetTreeResponse) error  { return nil }
-func (s *vTreeStream) Context() context.Context        { return s.ctx }
-func (s *vTreeStream) SetHeader(metadata.MD) error     { return nil }
-func (s *vTreeStream) SendHeader(metadata.MD) error    { return nil }
-func (s *vTreeStream) SetTrailer(metadata.MD)          {}
-func (s *vTreeStream) SendMsg(m interface{}) error     { return nil }
-func (s *vTreeStream) RecvMsg(m interface{}) error     { return nil }
+func (s *vTreeStream) Send(*pb.GetTreeResponse) error { return nil }
+func (s *vTreeStream) Context() context.Context       { return s.ctx }
+func (s *vTreeStream) SetHeader(metadata.MD) error    { return nil }
+func (s *vTreeStream) SendHeader(metadata.MD) error   { return nil }
+func (s *vTreeStream) SetTrailer(metadata.MD)         {}
+func (s *vTreeStream) SendMsg(m interface{}) error    { return nil }
+func (s *vTreeStream) RecvMsg(m interface{}) error    { return nil }
 
 type vReadStream struct {
 	vTreeStream
@@ -80,10 +80,13 @@ func TestVerifHandlersNil(t *testing.T) {
 	digests := map[string]*pb.Digest{"nil": nil, "good": good, "emptyhash": {Hash: "", SizeBytes: 1}, "neg": {Hash: vGoodHash, SizeBytes: -1}, "zero": {Hash: vGoodHash, SizeBytes: 0}}
 
 	// stored blobs that get interpreted as Directory / Tree / ActionResult
-	storeDir := func(d *pb.Directory) *pb.Digest { b, _ := proto.Marshal(d); return f.vPutBlob(t, append(b, 0)[:len(b)]) }
+	storeDir := func(d *pb.Directory) *pb.Digest {
+		b, _ := proto.Marshal(d)
+		return f.vPutBlob(t, append(b, 0)[:len(b)])
+	}
 	leaf := storeDir(&pb.Directory{Files: []*pb.FileNode{{Name: "f", Digest: good}}})
 	dirs := map[string]*pb.Directory{
-		"ok-child":        {Directories: []*pb.DirectoryNode{{Name: "c", Digest: leaf}}},
+		"ok-child":         {Directories: []*pb.DirectoryNode{{Name: "c", Digest: leaf}}},
 		"child-nil-digest": {Directories: []*pb.DirectoryNode{{Name: "c"}}},
 		"child-bad-hash":   {Directories: []*pb.DirectoryNode{{Name: "c", Digest: &pb.Digest{Hash: "xyz", SizeBytes: 1}}}},
 		"child-missing":    {Directories: []*pb.DirectoryNode{{Name: "c", Digest: &pb.Digest{Hash: vSha([]byte("absent")), SizeBytes: 6}}}},
@@ -187,7 +190,7 @@ func TestVerifHandlersNil(t *testing.T) {
 	}
 	_ = put
 	for name, tree := range map[string]*pb.Tree{"nil-root": {}, "nil-file-digest": {Root: &pb.Directory{Files: []*pb.FileNode{{Name: "x"}}}}, "child-nil-files": {Root: &pb.Directory{}, Children: []*pb.Directory{{}}},
-		"child-file-nil-digest": {Root: &pb.Directory{}, Children: []*pb.Directory{{Files: []*pb.FileNode{{Name: "y"}}}}},
+		"child-file-nil-digest":          {Root: &pb.Directory{}, Children: []*pb.Directory{{Files: []*pb.FileNode{{Name: "y"}}}}},
 		"child-file-and-root-nil-digest": {Root: &pb.Directory{Files: []*pb.FileNode{{Name: "x"}, {Name: "z", Digest: good}}}, Children: []*pb.Directory{{Files: []*pb.FileNode{{Name: "y", Digest: good}, {Name: "w"}}}}}} {
 		tb, _ := proto.Marshal(tree)
 		var td *pb.Digest
